@@ -16,6 +16,9 @@ import time
 import traceback
 
 HERE = os.path.dirname(os.path.dirname(os.path.abspath(__file__)))
+# evidence and replay files of runs against another tree (VERIF_REPO, mutation runs) must not replace those of /repo
+_REPO = os.path.abspath(os.environ.get("VERIF_REPO", "/repo"))
+OUT = HERE if _REPO == "/repo" else os.environ.get("VERIF_OUT", os.path.join("/tmp/verif_out", os.path.basename(_REPO)))
 HARNESS_ERROR = 3
 
 
@@ -115,8 +118,8 @@ def main(argv=None):
 
     errors = [r for r in results if r["error"]]
     findings = {f["id"]: f for f in open_findings(prop)}
-    os.makedirs(os.path.join(HERE, "replays"), exist_ok=True)
-    os.makedirs(os.path.join(HERE, "evidence"), exist_ok=True)
+    os.makedirs(os.path.join(OUT, "replays"), exist_ok=True)
+    os.makedirs(os.path.join(OUT, "evidence"), exist_ok=True)
 
     violations = []
     known_confirmed = {}
@@ -130,7 +133,7 @@ def main(argv=None):
             if len(violations) >= 3 or n_replays >= 10:
                 continue
             rec = dict(property=prop, module=modname, cfg=r["cfg"], cex=cex)
-            path = os.path.join(HERE, "replays", f"{prop}_{len(violations) + 1}.json")
+            path = os.path.join(OUT, "replays", f"{prop}_{len(violations) + 1}.json")
             with open(path, "w") as f:
                 json.dump(rec, f, indent=1, default=str)
             rc, out = replay_record(path)
@@ -153,7 +156,7 @@ def main(argv=None):
                 harness_errors.append(f"harness reported unknown finding id {fid}")
                 continue
             rec = dict(property=prop, module=modname, cfg=r["cfg"], cex=hit["example"])
-            path = os.path.join(HERE, "replays", f"{prop}_known_{fid}.json")
+            path = os.path.join(OUT, "replays", f"{prop}_known_{fid}.json")
             with open(path, "w") as f:
                 json.dump(rec, f, indent=1, default=str)
             rc, out = replay_record(path)
@@ -211,7 +214,7 @@ def main(argv=None):
         wall_s=round(wall, 2),
         violations=len(violations),
     )
-    with open(os.path.join(HERE, "evidence", f"{prop}.json"), "w") as f:
+    with open(os.path.join(OUT, "evidence", f"{prop}.json"), "w") as f:
         json.dump(ev, f, indent=1, default=str)
 
     print(f"[{prop}] tier={args.tier} configs={len(results)} paths={tot('paths')} queries={tot('queries')} "
